@@ -302,6 +302,8 @@ def check_handlers(ctx, facts, rule):
                     got = ([e[2] for e in writes], got_state, result_is_ok(r))
                     if got != exp:
                         bad.append((cls, got, exp))
+                    elif got_state != same and ('change-stamp',) not in trace:
+                        bad.append((cls, (got[0], 'changed WITHOUT bumping the keyspace change stamp (peers compare only that stamp and never re-sync this keyspace)', got[2]), exp))
                 ok_ = seen > 0 and not bad
                 lab = '%s|%s|storage %s' % (kind, pre_label(pre), 'succeeds' if ans == 'ok' else 'fails')
                 ctx.ob(rule, lab, ok_, site_of(kind),
@@ -358,6 +360,8 @@ def check_handlers(ctx, facts, rule):
                     got = ([e[2] for e in writes], got_state, result_is_ok(r))
                     if got != exp:
                         bad.append((got, exp))
+                    elif applied and ('change-stamp',) not in trace:
+                        bad.append(((got[0], 'changed WITHOUT bumping the keyspace change stamp', got[2]), exp))
                 ok_ = seen > 0 and not bad
                 lab = '%s|first doc: set holds %s, second: %s|storage %s' % (kind, p1, p2, {'ok': 'succeeds', 'err-none': 'fails having written nothing', 'err-first': 'fails after the first handed document', 'err-last': 'fails having written only the last handed document'}[ans])
                 ctx.ob(rule, lab, ok_, site_of(kind),
